@@ -41,6 +41,8 @@ SEEDS = [
     # simultaneous assignment of textually identical random right-hand sides (independent draws), next to a sequential reading
     "a = 0\nb = 0\ns = 0\nwhile true:\n    a, b = 1 {1/2} 0, 1 {1/2} 0\n    s = s + a*b\nend\n",
     "a = 0\nb = 0\ns = 0\nwhile true:\n    a, b = Bernoulli(1/2), Bernoulli(1/2)\n    s, a = s + a*b, s\nend\n",
+    # an elif chain without else whose first branch is one plain inner if
+    "c = 0\nd = 0\nx = 0\ny = 0\nwhile true:\n    c = Bernoulli(1/2)\n    d = Bernoulli(1/2)\n    if c == 1:\n        if d == 1:\n            x = x + 1\n        end\n    elif d == 0:\n        y = y + 2\n    end\nend\n",
 ]
 SEEDS_MORE = [
     "g = 0\nx = 0\nwhile true:\n    g = Normal(x, 1)\n    x = x + g/2\nend\n",
